@@ -133,7 +133,9 @@ def r17_3(ck: Check) -> None:
 
 def r17_4(ck: Check) -> None:
     """structural premises of 'the proof contains the entry at that position and reproduces the commitment'"""
-    s = ck.summ(MT + "get_proof", 0)
+    from .common import worker_of
+    q = worker_of(ck, MT + "get_proof")
+    s = ck.summ(q, 0)
     sp = Spec(s, ("n", "i"))
     rets = s.returns()
     leaf = [r for r in rets if r.term == sp.term("n") and [c.term for c in r.pc] == [sp.term("not n.children")]]
@@ -141,7 +143,7 @@ def r17_4(ck: Check) -> None:
     other = "(n.children[0] if %s else n.children[1])" % right
     into = "(n.children[1] if %s else n.children[0])" % right
     simp = "MerkleNode(%s.index, (), %s.hash())" % (other, other)
-    rec = "get_proof(%s, i)" % into
+    rec = "%s(%s, i)" % (q.split(".")[-1], into)
     want = sp.term("MerkleNode(n.index, (%s, %s) if %s else (%s, %s))" % (simp, rec, right, rec, simp))
     inner = [r for r in rets if r.term == want]
     from ..engine.match import same_function
